@@ -5,7 +5,7 @@ import UF.Proofs.DnsRewriteParse
   Helper lemmas for C18: `splitNextByWhitespace` in structural form, the token reference,
   the names loop, and `NewHostRule` = the token reference for every line.
 -/
-namespace UF
+namespace UF.H
 open Bytes
 
 /-! ### takeWhile / dropWhile arithmetic -/
@@ -129,9 +129,9 @@ theorem splitRest_length_lt {s : Bytes} (h : s ≠ []) : (splitRest s).length < 
       simp only [List.length_cons]
       omega
 
-end UF
+end UF.H
 
-namespace UF
+namespace UF.H
 open Bytes
 
 /-! ### The token reference -/
@@ -318,9 +318,9 @@ theorem newHostRule_eq_spec (ext : Ext) (dn : Bytes → Bool) (text : Bytes) (li
       | cons n ns =>
         cases ext.parseAddr (splitTok body) <;> simp
 
-end UF
+end UF.H
 
-namespace UF
+namespace UF.H
 open Bytes
 
 /-! ### Lines of the grammar -/
@@ -482,4 +482,4 @@ theorem hashFree_namesText (wn : List (Bytes × Bytes)) (hwn : goodPairs wn = tr
     obtain ⟨⟨⟨_, hwb⟩, ⟨_, hnh⟩⟩, _⟩ := hwn
     simp [namesText, hashFree_append, hashFree_of_allBlank hwb, hnh, ih hr]
 
-end UF
+end UF.H
